@@ -26,6 +26,53 @@ def judge(text, impl, aux):
     return None
 
 
+SHAPES = {
+    "parens": lambda n: "(" * n + "1" + ")" * n,
+    "open-parens": lambda n: "(" * n,
+    "minus": lambda n: "-" * n + "1",
+    "plus": lambda n: "+" * n + "1",
+    "neg-parens": lambda n: "-(" * n + "1" + ")" * n,
+    "sqrt": lambda n: "sqrt(" * n + "2" + ")" * n,
+    "pow": lambda n: "^".join(["2", "2"] + ["1"] * n),
+    "of": lambda n: "mass of " * n + "water",
+    "frac": lambda n: " / ".join(["2"] * n),
+    "sum": lambda n: " + ".join(["1"] * n),
+    "juxt": lambda n: " ".join(["m"] * n),
+    "eq": lambda n: " = ".join(["a"] * n),
+    "spaces": lambda n: " " * n + "1",
+    "arrow": lambda n: "1 " + "-> m " * n,
+    "quote": lambda n: "'" * n,
+}
+
+
+def stack_probes(c):
+    """Deep but short inputs on the smallest stack Rink is deployed on (1 MiB, a wasm instance) in the
+    optimised build: every recursive production at nesting 100 .. 499 (as far as 500 characters allow)."""
+    d = os.path.join(c.work, "stack")
+    os.makedirs(d, exist_ok=True)
+    probes = []
+    for name, f in SHAPES.items():
+        for n in (100, 200, 300, 400, 499):
+            q = f(n)
+            if len(q) <= 500:
+                probes.append(("%s:%d" % (name, n), q))
+    with open(os.path.join(d, "req.txt"), "w") as fh:
+        for _, q in probes:
+            fh.write("evalt %s - -\n" % q.encode().hex())
+    env = dict(vlib.ENV, RKH_STACK_KB="1024")
+    rc, out = vlib.sh([vlib.RKH, "eval-run", "--out", d, "--independent", "--budget-ms=5000"], env=env, timeout=900)
+    ans = open(os.path.join(d, "impl.txt")).read().split("\n") if rc == 0 else []
+    bad = 0
+    for (key, q), a in zip(probes, ans):
+        if a.split(" ")[0] in ("abort", "panic", "timeout"):
+            bad += 1
+            c.violation("stack-1MiB:" + key, "C04: %s on a 1 MiB stack: input %r (%d characters) -> %s" % (key, q[:40] + "...", len(q), a[:80]),
+                        {"kind": "input", "input": q, "stack_kib": 1024, "outcome": a, "run": "RKH_STACK_KB=1024 rkh eval-worker"}, found=True)
+    c.coverage["stack_probes"] = {"probes": len(probes), "failing": bad, "stack_kib": 1024}
+    if rc != 0 or len(ans) < len(probes):
+        c.violation("stack-probes", "the stack probe run failed", {"kind": "obligation", "obligation": "rkh eval-run (stack probes)", "output": out[-1000:]}, found=False)
+
+
 def run(c):
     c.trusted += [
         "termination of lexer, parser and evaluator is Lean's own totality check on the model (structural or fuel recursion); running time and stack depth of the compiled Rust are exercised by the stream, not proved",
@@ -46,6 +93,7 @@ def run(c):
     st = vlib.eval_stream(c, "gen-c04", independent=False, budget_ms=3000, judge=judge, group_start="reset", ans_taint=True)
     if st is None:
         return
+    stack_probes(c)
     # the hypotheses of eval_never_panics, evaluated on the dump of the real registry
     rc, out = vlib.sh([vlib.MODEL, "ctxok", os.path.join(c.work, "registry.dump")])
     ok = rc == 0 and "degrees=true" in out and "substances=true" in out
